@@ -93,6 +93,7 @@ Definition ta_join (a b : ta) : ta :=
 Definition c20 (l : nat) (why : string) : list alarm := [(l, ("C20: " ++ why)%string)].
 
 Section Domain.
+  Variable hm : bool.             (* hook mode: false = the hook is an observer, true = the hook may move every agent's position *)
   Variable useloc : bool.         (* particle-swarm family: the record is truthful w.r.t. the stored local best *)
   Variable gm : gmode.            (* which monotonicity is demanded at a dump *)
 
@@ -108,9 +109,12 @@ Section Domain.
        | GRank => if rk a then [] else c20 l "greedy (rank-wise): the sorted fitness vector is not known to be dominated by the previous record's"
        end.
 
-  Definition t_atom0 (l : nat) (s : stmt) (a : ta) : ta * list alarm :=
+  Definition th_atom0 (l : nat) (s : stmt) (a : ta) : ta * list alarm :=
     match s with
-    | Skip | Draw | SetHyper _ | Hook | BestTreeCopy | TreeCopy _ _ | TreeSet _ _ | TreeCross _ _ => (a, [])
+    | Skip | Draw | SetHyper _ | BestTreeCopy | TreeCopy _ _ | TreeSet _ _ | TreeCross _ _ => (a, [])
+    | Hook =>
+        (* an observer changes nothing; a position-moving hook is a Havoc of every slot that keeps the fitnesses *)
+        if hm then (set_pop (nf a) (posv false false (lo a)) (posv false false (cu a)) (posv false false (hi a)), []) else (a, [])
     | Havoc _ r | PosFromTree r => (wr r (posv false false (rd r a)) (nf a), [])
     | Clip r => if feas (rd r a) then (a, []) else (wr r (posv true false (rd r a)) (nf a), [])
     | ClipAll =>
@@ -166,9 +170,9 @@ Section Domain.
     let t v := {| feas := feas v; cons := cons v; cl := cl v; sent := sent v; mono := true |} in
     mk (bot a) (t (lo a)) (t (cu a)) (t (hi a)) (be a) (tr_ a) (sa a) (sc a) (pf a) (fl a) (tl a) (tq a) (ff a) (srt a) true (nd a).
 
-  Definition t_atom (l : nat) (s : stmt) (a : ta) : ta * list alarm :=
+  Definition th_atom (l : nat) (s : stmt) (a : ta) : ta * list alarm :=
     if bot a then (a, []) else
-    let (a', al) := t_atom0 l s a in (if nd a' then vac a' else a', al).
+    let (a', al) := th_atom0 l s a in (if nd a' then vac a' else a', al).
 
   Definition t_assume (c : cond) (b : bool) (a : ta) : ta :=
     match c, b with
@@ -185,7 +189,7 @@ Section Domain.
     mk (bot a) p p p (be a) (tr_ a) q q None None None None None (srt a) (rk a) (nd a).
 
   Definition no_special (l : nat) (incur : bool) (s : stmt) (a : ta) : option (ta * list alarm) := None.
-  Definition absint0 := absint ta ta_leb ta_join t_atom t_assume t_enter t_exit no_special.
+  Definition th_absint0 := absint ta ta_leb ta_join th_atom t_assume t_enter t_exit no_special.
 
   (* the strong update for "for agent in agents": slots below the loop slot are done, the others are still to do *)
   Definition enter3 (j : ta) : ta := mk (bot j) (lo j) (hi j) (hi j) (be j) (tr_ j) (sa j) (sa j) None None None None None (srt j) (rk j) (nd j).
@@ -194,27 +198,32 @@ Section Domain.
   Definition fin3 (j : ta) : ta := mk (bot j) (lo j) (lo j) (lo j) (be j) (tr_ j) (sa j) (sa j) None None None None None (srt j) (rk j) (nd j).
   Definition start3 (a : ta) : ta := mk (bot a) avtop (hi a) (hi a) (be a) (tr_ a) (sa a) (sa a) None None None None None (srt a) (rk a) (nd a).
 
-  Definition t_special (l : nat) (incur : bool) (s : stmt) (a : ta) : option (ta * list alarm) :=
+  Definition th_special (l : nat) (incur : bool) (s : stmt) (a : ta) : option (ta * list alarm) :=
     match s with
     | ForSlots b =>
         if incur then None else
         if bot a then Some (a, []) else
         Some (let (j, al) := loop ta ta_leb ta_join l
-                               (fun j => let (j', al) := absint0 l true b (enter3 j) in (step3 j', al)) (start3 a) in
+                               (fun j => let (j', al) := th_absint0 l true b (enter3 j) in (step3 j', al)) (start3 a) in
               (fin3 j, al))
     | _ => None
     end.
 
-  Definition t_absint := absint ta ta_leb ta_join t_atom t_assume t_enter t_exit t_special.
+  Definition th_absint := absint ta ta_leb ta_join th_atom t_assume t_enter t_exit th_special.
 
   Definition t_init : ta :=
     let p := {| feas := true; cons := false; cl := false; sent := useloc; mono := true |} in
     mk false p p p avbot avbot avbot avbot None None None None None false true true.
 
-  Definition t_check (p : stmt) : bool :=
-    match t_absint 0 false p t_init with (_, []) => true | _ => false end.
-  Definition t_alarms (p : stmt) : list alarm := snd (t_absint 0 false p t_init).
+  Definition th_check (p : stmt) : bool :=
+    match th_absint 0 false p t_init with (_, []) => true | _ => false end.
+  Definition th_alarms (p : stmt) : list alarm := snd (th_absint 0 false p t_init).
 End Domain.
+
+(* the analyses for an observer hook (the names used by the drivers and by Analysis/TruthfulHist.v) *)
+Definition t_absint := th_absint false.
+Definition t_check := th_check false.
+Definition t_alarms := th_alarms false.
 
 (* the particle-swarm family: the sweep is PSO._evaluate *)
 Definition pso_body : stmt :=
@@ -237,6 +246,8 @@ Definition sorts (p : stmt) : bool := has_sub SortByFit (strip p).
 
 Definition c20_check (p : stmt) : bool := t_check (is_pso p) GNone p.
 Definition c20_greedy_check (p : stmt) : bool := t_check (is_pso p) (if sorts p then GRank else GSlot) p.
+(* clause 1 for hooks that move positions *)
+Definition c20h_check (p : stmt) : bool := th_check true (is_pso p) GNone p.
 
 (* ================================================================ lattice facts *)
 Lemma f2_eqb_eq p q : f2_eqb p q = true <-> p = q.
@@ -650,6 +661,17 @@ Section Sound.
   Variable useloc : bool.
   Variable gm : gmode.
   Hypothesis box_ok : Forall2 (fun l h => kle l h = true) lbs ubs.
+
+  (* a hook that only moves agents: it keeps every agent's fitness (hence the population size), the best agent, the trial, the
+     shadows and the local positions, and leaves the positions well formed (NaN-free, the declared number of rows) *)
+  Definition hook_moves_positions_only (h : st -> st) : Prop :=
+    forall x, map afit (pop (h x)) = map afit (pop x) /\ best (h x) = best x /\ tr (h x) = tr x /\ sh (h x) = sh x /\
+              loc (h x) = loc x /\
+              ((forall a, In a (pop x) -> wf lbs (apos a)) -> forall a, In a (pop (h x)) -> wf lbs (apos a)).
+
+  Variable hm : bool.             (* hook mode of the analysis *)
+  Variable hk : st -> st.         (* the hook *)
+  Hypothesis hook_ok : if hm then hook_moves_positions_only hk else forall x, hk x = x.
 
   Definition aok (v : av) (ag : agent) : Prop :=
     wf lbs (apos ag) /\ (feas v = true -> feasible lbs ubs (apos ag) = true) /\
@@ -1111,7 +1133,7 @@ Section Sound.
   Qed.
 
   Lemma dump_sound l a a' cur x D :
-    bot a = false -> t_atom0 useloc gm l Dump a = (a', []) -> TGd a cur x D -> TGd a' cur x (D ++ [x]).
+    bot a = false -> th_atom0 hm useloc gm l Dump a = (a', []) -> TGd a cur x D -> TGd a' cur x (D ++ [x]).
   Proof.
     intros Hbot Hab [[P0 P1 P2 P3 P4 P5 P6 P7] HF [R1 R2] Hnd Hok Hadj].
     simpl in Hab. injection Hab as <- Hal. unfold dump_alarms in Hal. apply app_nil_both in Hal as [Hal1 Hal2].
@@ -1145,7 +1167,35 @@ Section Sound.
       + destruct (rk a) eqn:Er; [|discriminate Hal2]. apply R2; [reflexivity|exact Hy0].
   Qed.
 
-  Lemma t_atom0_sound : forall l s a a', is_atom s = true -> bot a = false -> t_atom0 useloc gm l s a = (a', []) ->
+  (* a position-moving hook is a Havoc of every slot that keeps the fitnesses *)
+  Lemma hook_sound a cur x D : hm = true -> TGd a cur x D ->
+    TGd (set_pop (nf a) (posv false false (lo a)) (posv false false (cu a)) (posv false false (hi a))) cur (hk x) D.
+  Proof.
+    intros Hm HG. pose proof hook_ok as Hh. rewrite Hm in Hh. destruct (Hh x) as (Hf & Hb & Ht & Hs & Hl & Hw). clear Hh.
+    destruct HG as [[P0 P1 P2 P3 P4 P5 P6 P7] HF [R1 R2] Hnd Hok Hadj].
+    assert (Hlen : length (pop (hk x)) = length (pop x)) by (rewrite <- (map_length afit), Hf, map_length; reflexivity).
+    assert (Hwf : forall a0, In a0 (pop (hk x)) -> wf lbs (apos a0)).
+    { apply Hw. intros a0 Ha. apply In_nth_error in Ha as [j Hj]. destruct (P2 j a0 Hj) as [(K & _) _]. exact K. }
+    constructor; try assumption.
+    - constructor; simpl; rewrite ?Hb, ?Ht, ?Hs, ?Hl; try assumption.
+      + congruence.
+      + intros j ag' Hn.
+        assert (Hj : j < length (pop x)) by (rewrite <- Hlen; apply nth_error_Some; congruence).
+        destruct (nth_error (pop x) j) as [ag|] eqn:En; [|apply nth_error_None in En; lia].
+        assert (Hfit : afit ag' = afit ag).
+        { pose proof (map_nth_error afit j (pop (hk x)) Hn) as E1. pose proof (map_nth_error afit j (pop x) En) as E2.
+          rewrite Hf in E1. congruence. }
+        specialize (P2 j ag En).
+        assert (Hv : forall v, sok v (loc x) (lasto D) j ag -> sok (posv false false v) (loc x) (lasto D) j ag').
+        { intros v [(K1 & K2 & K3 & K4) [K5 K6]].
+          split; [split; [apply Hwf; eapply nth_error_In; exact Hn|split; [discriminate|split; [discriminate|simpl; rewrite Hfit; exact K4]]]|].
+          split; simpl; rewrite Hfit; assumption. }
+        unfold cls in *; simpl. destruct cur as [i|]; [destruct (j <? i); [|destruct (j =? i)]|]; apply Hv; exact P2.
+    - apply TGf_none; reflexivity.
+    - constructor; simpl; unfold fits; rewrite Hf; assumption.
+  Qed.
+
+  Lemma t_atom0_sound : forall l s a a', is_atom s = true -> bot a = false -> th_atom0 hm useloc gm l s a = (a', []) ->
     forall cur o x h x' evs o', TG a cur x h -> exec_atom lbs ubs f hk okc cur s o x = Some (x', evs, o') ->
     TG a' cur x' (h ++ evs).
   Proof.
@@ -1363,7 +1413,11 @@ Section Sound.
       + destruct HR as [R1 R2]. constructor; assumption.
     - (* SortByFit *)
       injection Hab as <-. inv_ret Hex. rewrite app_nil_r. unfold TG in *. apply sort_sound. exact HG.
-    - (* Hook *) injection Hab as <-. injection Hex as <- <- <-. nodump. exact HG.
+    - (* Hook *)
+      injection Hex as <- <- <-. nodump. destruct (Bool.bool_dec hm true) as [Hm|Hm].
+      + rewrite Hm in Hab. injection Hab as <-. apply hook_sound; [exact Hm|exact HG].
+      + apply not_true_is_false in Hm. rewrite Hm in Hab. injection Hab as <-.
+        pose proof hook_ok as Hh. rewrite Hm in Hh. rewrite Hh. exact HG.
     - (* Dump *)
       injection Hex as <- <- <-. unfold TG in *. rewrite dumps_app. simpl. eapply dump_sound; eassumption.
     - (* Draw *) injection Hab as <-. injection Hex as <- <- <-. nodump. exact HG.
@@ -1397,13 +1451,13 @@ Section Sound.
       revert HG. apply TGd_eqv; [repeat split|reflexivity].
   Qed.
 
-  Lemma t_atom_sound : forall l s a a', is_atom s = true -> t_atom useloc gm l s a = (a', []) ->
+  Lemma t_atom_sound : forall l s a a', is_atom s = true -> th_atom hm useloc gm l s a = (a', []) ->
     forall cur o x h x' evs o', TG a cur x h -> exec_atom lbs ubs f hk okc cur s o x = Some (x', evs, o') ->
     TG a' cur x' (h ++ evs).
   Proof.
-    intros l s a a' Hat Hab cur o x h x' evs o' HG Hex. unfold t_atom in Hab.
+    intros l s a a' Hat Hab cur o x h x' evs o' HG Hex. unfold th_atom in Hab.
     pose proof (p_bot _ _ _ _ (d_p _ _ _ _ HG)) as Hb. rewrite Hb in Hab.
-    destruct (t_atom0 useloc gm l s a) as [a1 al1] eqn:E0. injection Hab as <- ->.
+    destruct (th_atom0 hm useloc gm l s a) as [a1 al1] eqn:E0. injection Hab as <- ->.
     pose proof (t_atom0_sound l s a a1 Hat Hb E0 cur o x h x' evs o' HG Hex) as H1.
     destruct (nd a1) eqn:En; [apply TGd_vac; assumption|exact H1].
   Qed.
@@ -1460,12 +1514,12 @@ Section Sound.
     - constructor; assumption.
   Qed.
 
-  Lemma absint0_sound : forall s l incur a a', absint0 useloc gm l incur s a = (a', []) ->
+  Lemma absint0_sound : forall s l incur a a', th_absint0 hm useloc gm l incur s a = (a', []) ->
     forall cur o x h x' evs o', (if incur then exists i, cur = Some i else cur = None) ->
       TG a cur x h -> exec lbs ubs f hk n_iter okc cur s o x = Some (x', evs, o') -> TG a' cur x' (h ++ evs).
   Proof.
     intros s l incur a a' Habs cur o x h x' evs o' Hc HG Hex.
-    eapply (absint_sound lbs ubs f hk n_iter okc ta ta_leb ta_join (t_atom useloc gm) t_assume t_enter t_exit no_special TG);
+    eapply (absint_sound lbs ubs f hk n_iter okc ta ta_leb ta_join (th_atom hm useloc gm) t_assume t_enter t_exit no_special TG);
       try eassumption.
     - apply ta_leb_refl.
     - apply ta_leb_trans.
@@ -1532,7 +1586,7 @@ Section Sound.
   Qed.
 
   Lemma sweep_inv b l J j1 :
-    absint0 useloc gm l true b (enter3 J) = (j1, []) -> ta_leb (step3 j1) J = true ->
+    th_absint0 hm useloc gm l true b (enter3 J) = (j1, []) -> ta_leb (step3 j1) J = true ->
     forall n i o x h x' evs o', TG (enter3 J) (Some i) x h ->
       iter_slots i n (fun k => exec lbs ubs f hk n_iter okc (Some k) b) o x = Some (x', evs, o') ->
       TG (enter3 J) (Some (i + n)) x' (h ++ evs).
@@ -1545,7 +1599,7 @@ Section Sound.
       eapply absint0_sound; [exact Hb|exists i; reflexivity|exact HG|exact H1].
   Qed.
 
-  Lemma t_special_sound : forall l incur s a a', t_special useloc gm l incur s a = Some (a', []) ->
+  Lemma t_special_sound : forall l incur s a a', th_special hm useloc gm l incur s a = Some (a', []) ->
     forall cur o x h x' evs o', (if incur then exists i, cur = Some i else cur = None) ->
       TG a cur x h -> exec lbs ubs f hk n_iter okc cur s o x = Some (x', evs, o') -> TG a' cur x' (h ++ evs).
   Proof.
@@ -1555,19 +1609,19 @@ Section Sound.
     pose proof (p_bot _ _ _ _ (d_p _ _ _ _ HG)) as Hb. rewrite Hb in Hsp.
     destruct (loop ta ta_leb ta_join l _ (start3 a)) as [J al] eqn:EL. injection Hsp as <- ->.
     apply (loop_sound ta ta_leb ta_join ta_leb_refl ta_leb_trans ta_join_l) in EL as [Hle (j' & HF & Hst)].
-    destruct (absint0 useloc gm l true s (enter3 J)) as [j1 al1] eqn:E1. injection HF as <- ->.
+    destruct (th_absint0 hm useloc gm l true s (enter3 J)) as [j1 al1] eqn:E1. injection HF as <- ->.
     simpl in Hex. rewrite (p_len _ _ _ _ (d_p _ _ _ _ HG)) in Hex.
     apply fin3_sound. change (Some N) with (Some (0 + N)).
     eapply sweep_inv; [exact E1|exact Hst| |exact Hex].
     eapply TG_mono; [apply enter3_mono; exact Hle|]. apply start3_sound. exact HG.
   Qed.
 
-  Theorem t_sound : forall s l a a', t_absint useloc gm l false s a = (a', []) ->
+  Theorem t_sound : forall s l a a', th_absint hm useloc gm l false s a = (a', []) ->
     forall o x h x' evs o', TG a None x h -> exec lbs ubs f hk n_iter okc None s o x = Some (x', evs, o') ->
       TG a' None x' (h ++ evs).
   Proof.
     intros s l a a' Habs o x h x' evs o' HG Hex.
-    eapply (absint_sound lbs ubs f hk n_iter okc ta ta_leb ta_join (t_atom useloc gm) t_assume t_enter t_exit (t_special useloc gm) TG)
+    eapply (absint_sound lbs ubs f hk n_iter okc ta ta_leb ta_join (th_atom hm useloc gm) t_assume t_enter t_exit (th_special hm useloc gm) TG)
       with (incur := false) (cur := None); try eassumption; try reflexivity.
     - apply ta_leb_refl.
     - apply ta_leb_trans.
@@ -1630,14 +1684,32 @@ Section Main.
   Definition slot_mono (y1 y2 : st) : Prop := Forall2 (fun a1 a2 => kle (afit a2) (afit a1) = true) (pop y1) (pop y2).
   Definition rank_mono (y1 y2 : st) : Prop := rank_le (fits (pop y2)) (fits (pop y1)).
 
+  (* the analysis in hook mode [hm] is sound for every hook allowed by that mode *)
+  Lemma th_check_sound (hm : bool) (h : st -> st) ul g p :
+    (if hm then hook_moves_positions_only lbs h else forall x, h x = x) -> th_check hm ul g p = true ->
+    forall o x0 x' evs o', init_ok ul x0 -> run lbs ubs f h n_iter okc p o x0 = Some (x', evs, o') ->
+      Forall (dump_ok f (length (pop x0)) ul) (dumps evs) /\ adj st (Rel g) (dumps evs).
+  Proof.
+    unfold th_check. intros Hh Hc o x0 x' evs o' Hi Hr.
+    destruct (th_absint hm ul g 0 false p (t_init ul)) as [a' al] eqn:E. destruct al; [|discriminate].
+    pose proof (t_sound lbs ubs f n_iter (length (pop x0)) ul g box_ok hm h Hh p 0 _ _ E o x0 [] x' evs o' (init_TG ul g x0 Hi) Hr) as HG.
+    simpl in HG. split; [apply (d_ok _ _ _ _ _ _ _ _ _ _ HG)|apply (d_adj _ _ _ _ _ _ _ _ _ _ HG)].
+  Qed.
+
   Lemma t_check_sound ul g p : t_check ul g p = true ->
     forall o x0 x' evs o', init_ok ul x0 -> run lbs ubs f hk n_iter okc p o x0 = Some (x', evs, o') ->
       Forall (dump_ok f (length (pop x0)) ul) (dumps evs) /\ adj st (Rel g) (dumps evs).
+  Proof. apply (th_check_sound false hk ul g p). intros x. reflexivity. Qed.
+
+  (* clause 1 for every hook that only moves positions (clause 2 is stated for observer hooks only: a moved agent is
+     re-evaluated by the sweep, so its fitness may well increase) *)
+  Theorem c20h_truthful_of_check (h : st -> st) p : hook_moves_positions_only lbs h -> c20h_check p = true ->
+    forall o x0 x' evs o', init_ok (is_pso p) x0 -> run lbs ubs f h n_iter okc p o x0 = Some (x', evs, o') ->
+      forall y, In (EvDump y) evs -> truthful (is_pso p) y.
   Proof.
-    unfold t_check. intros Hc o x0 x' evs o' Hi Hr.
-    destruct (t_absint ul g 0 false p (t_init ul)) as [a' al] eqn:E. destruct al; [|discriminate].
-    pose proof (t_sound lbs ubs f n_iter (length (pop x0)) ul g box_ok p 0 _ _ E o x0 [] x' evs o' (init_TG ul g x0 Hi) Hr) as HG.
-    simpl in HG. split; [apply (d_ok _ _ _ _ _ _ _ _ _ _ HG)|apply (d_adj _ _ _ _ _ _ _ _ _ _ HG)].
+    intros Hh Hc o x0 x' evs o' Hi Hr y Hy.
+    destruct (th_check_sound true h _ _ _ Hh Hc o x0 x' evs o' Hi Hr) as [H _].
+    rewrite Forall_forall in H. apply dumps_in in Hy. destruct (H y Hy) as [_ K]. exact K.
   Qed.
 
   (* clause 1 *)
@@ -1719,3 +1791,21 @@ Proof.
   assert (forallb (fun a => Z.eqb (afit a) (fchk (apos a))) (pop y) = true); [|congruence].
   apply forallb_forall. intros a Ha. rewrite Forall_forall in Ht. apply Z.eqb_eq. apply Ht. exact Ha.
 Qed.
+
+(* a hook that really moves an agent: the first agent is put at key 5 (one variable, one dimension); used by the witnesses *)
+Definition hook_move0 (x : st) : st :=
+  with_pop x (match pop x with
+              | a :: t => {| apos := [[Some 5%Z]]; aid := aid a; afit := afit a |} :: t
+              | [] => [] end).
+
+Lemma hook_move0_ok : hook_moves_positions_only [0%Z] hook_move0.
+Proof.
+  intros x. unfold hook_move0. destruct (pop x) as [|b t] eqn:E; simpl.
+  - refine (conj eq_refl (conj eq_refl (conj eq_refl (conj eq_refl (conj eq_refl _))))). intros _ a0 [].
+  - refine (conj eq_refl (conj eq_refl (conj eq_refl (conj eq_refl (conj eq_refl _))))).
+    intros H a0 [<-|Ha]; [split; reflexivity|apply H; right; exact Ha].
+Qed.
+
+(* the base sweep (Optimizer._evaluate) *)
+Definition base_sweep : stmt :=
+  ForSlots (Seq (Eval Cur) (If (FitLt Cur Best) (Seq (CopyPos Best Cur) (CopyFit Best Cur)) Skip)).
